@@ -18,7 +18,7 @@ from ..report import rule
 CF = "claripy/frontend/composite_frontend.py"
 
 # the operations of the frontend interface that hand new solvers to the caller
-_DERIVING = ("split", "merge", "combine")
+_DERIVING = ("split", "merge", "combine", "unsat_core")  # unsat_core: the core is collected from the children
 
 
 @rule(
@@ -85,6 +85,7 @@ def c15_unsatflag(R):
 
 # fields that __setstate__ may rebuild blank: a blank value means "nothing known", every reader falls back to the solver
 _BLANK_MEANS_UNKNOWN = {
+    ("CompositeFrontend", "_owned_solvers"): "owning nothing is the safe state: every child is copied (claimed) before it is written to",
     ("FullFrontend", "_to_add"): "no native solver exists after unpickling (fresh thread-local): every constraint is added again from `constraints` on first use",
     ("FullFrontend", "_tls"): "fresh per-thread slot; the native solver is rebuilt on demand",
     ("CompositedCacheMixin", "_merged_solvers"): "cache of merged children, rebuilt on demand",
